@@ -218,6 +218,27 @@ def run(facts, tier):
                 w5.violate(f"buffered/{body['def']}/{c}", f"`{body['def']}` wraps an output in `{c}`; a write error in the final implicit flush (Drop) would be lost before the rename", where=t["sp"])
     rules.append(w5.finish())
 
+    # ---- W18.7 the process is only ended where no temporary file is alive
+    w7 = Rule("W18.7", "the driver ends the process (`process::exit`, `abort`) only in `main` and in the conversion of the final error to an exit status, i.e. after the run "
+              "has returned and the RAII guard of an unfinished temporary file has deleted it: an exit from inside the run would leave `jaqXXXXXX` next to the input", floor=1)
+    n_exit = 0
+    for crate, body in facts.all_mir():
+        if crate not in ("jaq", "jaq_all") or body.get("test") or not not_repl(body):
+            continue
+        bb_ = Body(body)
+        for i, t in bb_.calls():
+            c = Body.callee(t) or ""
+            if re.search(r"^std::process::(exit|abort)$", c) or re.search(r"^std::process::(exit|abort)$", t.get("fn") or ""):
+                n_exit += 1
+                fn_ = body["def"].split("::{closure")[0]
+                ok = re.search(r"as std::process::Termination>::report$", fn_) is not None or fn_ == "jaq::main"
+                w7.examined((fn_, c), True, {"caller": fn_, "ends_process_with": c, "after_the_run": ok})
+                if not ok:
+                    w7.violate(f"exit/{fn_}", f"`{body['def']}` ends the process with `{c}`: destructors do not run, so an --in-place temporary file that is alive at that point stays on disk", where=t["sp"])
+    if not n_exit:
+        w7.missing_anchor("a call of std::process::exit in the driver (the `halt` exit status)")
+    rules.append(w7.finish())
+
     # ---- W18.4 sole writer of file-system state (MONO)
     w4 = Rule("W18.4", "outside the interactive repl, the only first-party code that can change the file system is module `jaq` (the command-line driver), and it does so only through tempfile creation, NamedTempFile::persist, set_permissions and the RAII deletion of the temporary file", floor=50)
     g = Mono(facts.mono())
